@@ -6,20 +6,21 @@
 (* collection of >= 2 keys is walked (Reached), the key counts the concrete *)
 (* program must exhibit, and the predictions of layer B (Leaky) and of the *)
 (* pinned commit's transcription (LeakyPinned).                            *)
-(*   cases = UniverseP(1) x W1Configs  \cup  UniverseP(2) x W2Configs      *)
+(*   cases = UniverseP(0) x W0Configs \cup UniverseP(1) x W1Configs         *)
+(*           \cup UniverseP(2) x W2Configs                                  *)
 (* root -> configuration -> case, so that all TLC workers take part.       *)
 (***************************************************************************)
 EXTENDS DetSites, Json
 
-CONSTANTS W1Configs, W2Configs
+CONSTANTS W0Configs, W1Configs, W2Configs
 
 VARIABLES stage, c, p
 gvars == <<stage, c, p>>
 
 GInit == stage = "root" /\ c = Cfg("-", "go", {}, "none", TRUE) /\ p = Base
-PickCfg == /\ stage = "root" /\ c' \in (W1Configs \cup W2Configs) /\ stage' = "cfg" /\ UNCHANGED p
+PickCfg == /\ stage = "root" /\ c' \in (W0Configs \cup W1Configs \cup W2Configs) /\ stage' = "cfg" /\ UNCHANGED p
 PickProg == /\ stage = "cfg"
-            /\ p' \in (IF c \in W2Configs THEN UniverseP(2) ELSE UniverseP(1))
+            /\ p' \in (IF c \in W2Configs THEN UniverseP(2) ELSE IF c \in W1Configs THEN UniverseP(1) ELSE UniverseP(0))
             /\ stage' = "case" /\ UNCHANGED c
 GNext == PickCfg \/ PickProg
 GSpec == GInit /\ [][GNext]_gvars
@@ -48,8 +49,10 @@ TableOK == stage = "case" =>
              /\ (LeakyPinned(p, c) \cup Leaky(p, c) # {} => Risky(p) \/ LeakyPinned(Base, c) \cup Leaky(Base, c) # {})
              /\ \A s \in Reached(p, c) : ObjectOf(s) \in Produced(c)
 
+GenQuickW0 == {}
 GenQuickW1 == ConfigsQuick
 GenQuickW2 == {}
+GenThoroughW0 == ConfigsMore
 GenThoroughW1 == ConfigsQuick \cup ConfigsSingles \cup ConfigsPairs
 GenThoroughW2 == {x \in ConfigsQuick : x.name \in {"go+reflection", "fastgo+no_fmt", "go+reflection/patch"}}
 =============================================================================
